@@ -105,7 +105,7 @@ static void mon_reset(void) {
 
 /* ---------------- ghost owner set and the representation invariant Inv_K ---------------- */
 enum { OW_FREE = 0, OW_A = 1, OW_B = 2, OW_OTHER = 3 };
-unsigned char gh_owner[XV_K];            /* who holds slot i: nobody (on the chain), guard A, guard B, some other live (protecting) guard */
+unsigned char gh_owner[XV_K], gh_rank[XV_K], gh_pred[XV_K], pre_rank[XV_K], pre_pred[XV_K]; unsigned pre_head;            /* who holds slot i: nobody (on the chain), guard A, guard B, some other live (protecting) guard */
 uintptr_t pre_val[XV_K]; unsigned char pre_owner[XV_K]; struct hp_slot* pre_hint; struct cb* pre_cb;
 struct guard gA, gB, a0, b0;
 #define SLOT(i) (&the_cb.pointers[i])
@@ -117,30 +117,35 @@ static _Bool gi_ok(const struct guard* g) {
 }
 /* GI2: a guard that protects nothing holds no slot */
 static _Bool gi2_ok(const struct guard* g) { return MP_get(g->ptr) != 0 || g->hp == 0; }
-static _Bool owner_of_guard_ok(const struct guard* g, unsigned char who) {
-  unsigned cnt = 0; for (unsigned i = 0; i < XV_K; i++) if (gh_owner[i] == who) cnt++;
-  if (g->hp == 0) return cnt == 0;
-  unsigned j = slot_index(g->hp); return j < XV_K && gh_owner[j] == who && cnt == 1;
-}
+static unsigned free_count(void) { unsigned n = 0; for (unsigned i = 0; i < XV_K; i++) if (gh_owner[i] == OW_FREE) n++; return n; }
+static unsigned word_index(uintptr_t w) { for (unsigned i = 0; i < XV_K; i++) if (w == (uintptr_t)SLOT(i)) return i; return XV_K; }
+/* Inv_K, stated locally with ghost witnesses (no walking, no counting): gh_rank[i] = position of free slot i on the chain, gh_pred[i] = its predecessor.
+ *   hint = null iff no slot is free, else hint is a free slot of rank 0;
+ *   a free slot i carries the link tag, rank < K, and links to null or to a free slot of rank+1      (=> the chain from hint is inside the block,
+ *     duplicate-free, visits only free slots and is null-terminated within K steps);
+ *   a free slot other than hint has a free predecessor of rank-1 that links to it                      (=> by induction on the rank every free slot
+ *     is reached from hint: exactly the slots that are not held are on the chain);
+ *   held slots carry no link tag, A/B own exactly the slot their hp names, other live guards protect something. */
 static _Bool inv_ok(const struct guard* A, const struct guard* B, _Bool relaxA) {
   if (local_thread_data.control_block == 0)        /* thread has not allocated yet */
     return local_thread_data.hint == 0 && A->hp == 0 && B->hp == 0 && gi_ok(A) && gi_ok(B);
   if (local_thread_data.control_block != &the_cb) return 0;
-  _Bool seen[XV_K]; for (unsigned i = 0; i < XV_K; i++) seen[i] = 0;
-  struct hp_slot* cur = local_thread_data.hint;
-  for (unsigned k = 0; k < XV_K; k++) {            /* the chain: inside the block, duplicate-free, link-tagged, null-terminated within K steps */
-    if (cur == 0) break;
-    unsigned j = slot_index(cur); if (j >= XV_K || seen[j]) return 0;
-    seen[j] = 1; if (SV_mark(cur->value) == 0) return 0;
-    cur = (struct hp_slot*)SV_get(cur->value);
+  unsigned h = slot_index(local_thread_data.hint);
+  if (local_thread_data.hint != 0 && (h >= XV_K || gh_owner[h] != OW_FREE || gh_rank[h] != 0)) return 0;
+  for (unsigned i = 0; i < XV_K; i++) {
+    uintptr_t v = SLOT(i)->value;
+    if ((gh_owner[i] == OW_A) != (A->hp == SLOT(i)) || (gh_owner[i] == OW_B) != (B->hp == SLOT(i))) return 0;
+    if (gh_owner[i] == OW_FREE) {
+      if (local_thread_data.hint == 0 || SV_mark(v) == 0 || gh_rank[i] >= XV_K) return 0;
+      if (SV_get(v) != 0) { unsigned t = word_index(SV_get(v)); if (t >= XV_K || gh_owner[t] != OW_FREE || gh_rank[t] != gh_rank[i] + 1) return 0; }
+      if (i != h) { unsigned p = gh_pred[i]; if (p >= XV_K || gh_owner[p] != OW_FREE || SV_get(SLOT(p)->value) != (uintptr_t)SLOT(i) || gh_rank[p] + 1 != gh_rank[i]) return 0; }
+    } else {
+      if (!(relaxA && gh_owner[i] == OW_A) && SV_mark(v) != 0) return 0;        /* relaxA: between alloc and set_object */
+      if (gh_owner[i] == OW_OTHER && v == 0) return 0;                            /* other live guards protect something */
+    }
   }
-  if (cur != 0) return 0;
-  for (unsigned i = 0; i < XV_K; i++) {            /* exactly the slots off the chain are held; free slots carry the link tag, held ones do not */
-    if (seen[i] != (gh_owner[i] == OW_FREE)) return 0;
-    if (!(relaxA && gh_owner[i] == OW_A) && (SV_mark(SLOT(i)->value) != 0) != (gh_owner[i] == OW_FREE)) return 0;   /* relaxA: between alloc and set_object */
-    if (gh_owner[i] == OW_OTHER && SLOT(i)->value == 0) return 0;     /* other live guards protect something */
-  }
-  if (!owner_of_guard_ok(A, OW_A) || !owner_of_guard_ok(B, OW_B)) return 0;
+  if (A->hp != 0 && slot_index(A->hp) >= XV_K) return 0;
+  if (B->hp != 0 && (slot_index(B->hp) >= XV_K || B->hp == A->hp)) return 0;
   return (relaxA || gi_ok(A)) && gi_ok(B);
 }
 /* after an operation: the owner map is recomputed from the guards; slots held by other guards must be untouched */
@@ -153,6 +158,13 @@ static _Bool derive_owner(const struct guard* A, const struct guard* B) {
     if (B->hp == SLOT(i)) { if (o != OW_FREE) ok = 0; o = OW_B; }
     gh_owner[i] = o;
   }
+  /* witnesses: an operation allocates and/or releases at most one slot, always at the head: ranks shift by one, the old head's predecessor is the new head */
+  int delta = 0; for (unsigned i = 0; i < XV_K; i++) { if (pre_owner[i] != OW_FREE && gh_owner[i] == OW_FREE) delta++; if (pre_owner[i] == OW_FREE && gh_owner[i] != OW_FREE) delta--; }
+  unsigned nh = slot_index(local_thread_data.hint);
+  for (unsigned i = 0; i < XV_K; i++) {
+    gh_rank[i] = pre_owner[i] == OW_FREE ? (unsigned char)(pre_rank[i] + delta) : 0;
+    gh_pred[i] = (pre_owner[i] == OW_FREE && i != pre_head) ? pre_pred[i] : (unsigned char)nh;
+  }
   return ok;
 }
 static _Bool slots_unchanged(void) {
@@ -164,48 +176,60 @@ static _Bool slots_unchanged_except(const struct hp_slot* s) {
   for (unsigned i = 0; i < XV_K; i++) if (SLOT(i) != s && SLOT(i)->value != pre_val[i]) return 0;
   return 1;
 }
+static _Bool owners_unchanged_except(const struct hp_slot* s) { for (unsigned i = 0; i < XV_K; i++) if (SLOT(i) != s && gh_owner[i] != pre_owner[i]) return 0; return 1; }
 static _Bool same_guard(const struct guard* x, const struct guard* y) { return x->ptr == y->ptr && x->hp == y->hp; }
-static unsigned free_count(void) { unsigned n = 0; for (unsigned i = 0; i < XV_K; i++) if (gh_owner[i] == OW_FREE) n++; return n; }
 
 /* ---------------- builder: an arbitrary state satisfying Inv_K (arbitrary chain order, arbitrary subset held) ---------------- */
-uint64_t in_perm; unsigned in_nfree, in_a_pos, in_b_pos, in_op; _Bool in_uninit;
+uint64_t in_ranks; unsigned in_nfree, in_a_idx, in_b_idx, in_op; _Bool in_uninit;       /* in_ranks: nibble i = rank of slot i on the chain, 15 = held */
 mptr in_a_ptr, in_b_ptr, in_val, in_expected, in_src; uintptr_t in_mask; int in_order;
-static unsigned perm_at(unsigned k) { return (unsigned)((in_perm >> (4 * k)) & 15); }
 static void build_state(_Bool with_a, _Bool with_b) {
-  in_perm = nondet_u64(); in_nfree = nondet_uint(); in_a_pos = nondet_uint(); in_b_pos = nondet_uint(); in_uninit = nondet_bool();
+  in_a_idx = nondet_uint(); in_b_idx = nondet_uint(); in_uninit = nondet_bool();
   in_a_ptr = nondet_uptr(); in_b_ptr = nondet_uptr(); in_mask = nondet_uptr(); mp_ptrmask = in_mask;
-  XV_ASSUME(in_nfree <= XV_K && (XV_K >= 16 || (in_perm >> (4 * XV_K)) == 0));
-  for (unsigned k = 0; k < XV_K; k++) { XV_ASSUME(perm_at(k) < XV_K); for (unsigned l = 0; l < k; l++) XV_ASSUME(perm_at(l) != perm_at(k)); }
-  XV_ASSUME(in_a_pos >= in_nfree && in_a_pos <= XV_K && in_b_pos >= in_nfree && in_b_pos <= XV_K);
-  XV_ASSUME(in_a_pos == XV_K || in_a_pos != in_b_pos);
-  if (!with_a) XV_ASSUME(in_a_pos == XV_K);
-  if (!with_b) XV_ASSUME(in_b_pos == XV_K);
+  XV_ASSUME(in_a_idx <= XV_K && in_b_idx <= XV_K && (in_a_idx == XV_K || in_a_idx != in_b_idx));
+  if (!with_a) XV_ASSUME(in_a_idx == XV_K);
+  if (!with_b) XV_ASSUME(in_b_idx == XV_K);
   XV_ASSUME(CANON(in_a_ptr) && CANON(in_b_ptr));
   xv_threw = 0; xv_clock = nondet_u64(); XV_ASSUME(xv_clock < ((uint64_t)1 << 62)); xv_number_of_active_hps = nondet_size();
+  unsigned head = nondet_uint(); uint64_t ranks = 0; in_nfree = 0;
   if (in_uninit) {
-    XV_ASSUME(in_a_pos == XV_K && in_b_pos == XV_K && in_nfree == XV_K);
-    local_thread_data.control_block = 0; local_thread_data.hint = 0;
-    for (unsigned i = 0; i < XV_K; i++) { the_cb.pointers[i].value = nondet_uptr(); gh_owner[i] = OW_FREE; }
+    XV_ASSUME(in_a_idx == XV_K && in_b_idx == XV_K);
+    local_thread_data.control_block = 0; local_thread_data.hint = 0; head = 0; in_nfree = XV_K;
+    for (unsigned i = 0; i < XV_K; i++) { the_cb.pointers[i].value = nondet_uptr(); gh_owner[i] = OW_FREE; gh_rank[i] = (unsigned char)i; gh_pred[i] = (unsigned char)(i - 1); }   /* prophecy: initialize_block chains them in index order */
   } else {
     local_thread_data.control_block = &the_cb;
-    local_thread_data.hint = in_nfree ? SLOT(perm_at(0)) : 0;
-    for (unsigned k = 0; k < XV_K; k++) {
-      unsigned i = perm_at(k);
-      if (k < in_nfree) { gh_owner[i] = OW_FREE; SLOT(i)->value = ((k + 1 < in_nfree) ? (uintptr_t)SLOT(perm_at(k + 1)) : 0) | SV_BIT; }
-      else { uintptr_t o = nondet_uptr(); XV_ASSUME((o >> 48) == 0); SLOT(i)->value = o;
-             gh_owner[i] = (k == in_a_pos) ? OW_A : (k == in_b_pos) ? OW_B : OW_OTHER; if (gh_owner[i] == OW_OTHER) XV_ASSUME(o != 0); }
+    for (unsigned i = 0; i < XV_K; i++) {       /* arbitrary subset held, arbitrary chain order through the free ones */
+      if (i == in_a_idx) gh_owner[i] = OW_A; else if (i == in_b_idx) gh_owner[i] = OW_B; else gh_owner[i] = nondet_bool() ? OW_FREE : OW_OTHER;
+      gh_rank[i] = nondet_uchar(); gh_pred[i] = nondet_uchar();
     }
+    XV_ASSUME(head <= XV_K); if (head < XV_K) XV_ASSUME(gh_owner[head % XV_K] == OW_FREE && gh_rank[head % XV_K] == 0);
+    local_thread_data.hint = head < XV_K ? SLOT(head % XV_K) : 0;
+    for (unsigned i = 0; i < XV_K; i++) {
+      if (gh_owner[i] == OW_FREE) {
+        unsigned nx = nondet_uint(), p = gh_pred[i]; in_nfree++;
+        XV_ASSUME(head < XV_K && gh_rank[i] < XV_K && nx <= XV_K);
+        if (nx < XV_K) XV_ASSUME(gh_owner[nx % XV_K] == OW_FREE && gh_rank[nx % XV_K] == gh_rank[i] + 1 && gh_pred[nx % XV_K] == i);
+        if (i != head) XV_ASSUME(p < XV_K && gh_owner[p % XV_K] == OW_FREE && gh_rank[p % XV_K] + 1 == gh_rank[i]);
+        SLOT(i)->value = (nx < XV_K ? (uintptr_t)SLOT(nx % XV_K) : 0) | SV_BIT;
+      } else {
+        uintptr_t o = nondet_uptr(); XV_ASSUME((o >> 48) == 0 && (gh_owner[i] != OW_OTHER || o != 0)); SLOT(i)->value = o; gh_rank[i] = 15;
+      }
+    }
+    for (unsigned i = 0; i < XV_K; i++) if (gh_owner[i] == OW_FREE && i != head) XV_ASSUME(SV_get(SLOT(gh_pred[i] % XV_K)->value) == (uintptr_t)SLOT(i));
   }
-  gA.ptr = in_a_ptr; gA.hp = in_a_pos < XV_K ? SLOT(perm_at(in_a_pos)) : 0;
-  gB.ptr = in_b_ptr; gB.hp = in_b_pos < XV_K ? SLOT(perm_at(in_b_pos)) : 0;
+  pre_head = head;
+  for (unsigned i = 0; i < XV_K; i++) ranks |= (uint64_t)(gh_rank[i] & 15) << (4 * i);
+  in_ranks = ranks;
+  gA.ptr = in_a_ptr; gA.hp = in_a_idx < XV_K ? SLOT(in_a_idx % XV_K) : 0;
+  gB.ptr = in_b_ptr; gB.hp = in_b_idx < XV_K ? SLOT(in_b_idx % XV_K) : 0;
   if (!with_a) gA.ptr = 0;
   if (!with_b) gB.ptr = 0;
   XV_ASSUME(gi_ok(&gA) && gi_ok(&gB));
-  for (unsigned i = 0; i < XV_K; i++) { pre_val[i] = SLOT(i)->value; pre_owner[i] = gh_owner[i]; }
+  for (unsigned i = 0; i < XV_K; i++) { pre_val[i] = SLOT(i)->value; pre_owner[i] = gh_owner[i]; pre_rank[i] = gh_rank[i]; pre_pred[i] = gh_pred[i]; }
   pre_hint = local_thread_data.hint; pre_cb = local_thread_data.control_block; a0 = gA; b0 = gB;
   gh_acquire_entry_calls = 0; gh_set_deleter_calls = 0; gh_retire_calls = 0; gh_scan_calls = 0;
   gh_retired_count = nondet_size(); gh_threshold = nondet_size(); gh_deleter = nondet_uptr(); gh_deleter_obj = nondet_uptr(); gh_retired_obj = nondet_uptr();
   mon_reset();
+  XV_MODEL_ASSERT("builder establishes Inv_K", inv_ok(&gA, &gB, 0));
 }
 #define NFREE_PRE (in_nfree)
 
@@ -277,7 +301,7 @@ void h_init(void) {
   if (nondet_bool()) {
     struct hp_slot* b = cb_initialize_block(&the_cb);
     local_thread_data.control_block = &the_cb; local_thread_data.hint = b;
-    XV_OBL("hp.initialize.all_free", b == SLOT(0) && inv_ok(&gA, &gB, 0) && free_count() == XV_K);
+    XV_OBL("hp.initialize.all_free", b == SLOT(0) && derive_owner(&gA, &gB) && inv_ok(&gA, &gB, 0) && free_count() == XV_K);
     for (unsigned i = 0; i < XV_K; i++)
       XV_OBL("hp.initialize.all_free", SLOT(i)->value == (((i + 1 < XV_K) ? (uintptr_t)SLOT(i + 1) : 0) | SV_BIT));
     XV_CANARY("init.block");
@@ -302,7 +326,7 @@ void h_alloc(void) {
   if (in_op == 0) {
     XV_ASSUME(a0.hp == 0 && a0.ptr == 0);
     struct hp_slot* r = td_alloc_hazard_pointer(&local_thread_data);
-    if (in_uninit || in_nfree > 0) {
+    if (in_uninit || pre_hint != 0) {
       XV_OBL("hp.alloc.k_available", !xv_threw && r != 0 && slot_index(r) < XV_K);
       if (!in_uninit) {
         XV_OBL("hp.alloc.k_available", r == pre_hint && slots_unchanged_except(0) && gh_acquire_entry_calls == 0);
@@ -314,7 +338,7 @@ void h_alloc(void) {
       }
       uintptr_t obj = nondet_uptr(); XV_ASSUME((obj >> 48) == 0 && MP_get(obj) == obj);
       gA.hp = r; gA.ptr = obj; hp_set_object(r, obj);       /* what every caller does next */
-      XV_OBL("hp.guard_ops.preserve_inv", derive_owner(&gA, &gB) && inv_ok(&gA, &gB, 0) && free_count() == (in_uninit ? XV_K : in_nfree) - 1);
+      XV_OBL("hp.guard_ops.preserve_inv", derive_owner(&gA, &gB) && inv_ok(&gA, &gB, 0) && owners_unchanged_except(r));
     } else {
       XV_OBL("hp.alloc.exhausted_throws", THREW_BAD_ALLOC && r == 0 && slots_unchanged());
       XV_OBL("hp.guard_ops.preserve_inv", derive_owner(&gA, &gB) && inv_ok(&gA, &gB, 0));
@@ -326,7 +350,7 @@ void h_alloc(void) {
       XV_OBL("hp.release.returns_slot", gA.hp == 0 && local_thread_data.hint == a0.hp && a0.hp->value == ((uintptr_t)pre_hint | SV_BIT));
       XV_OBL("hp.release.returns_slot", slots_unchanged_except(a0.hp) && !xv_threw && local_thread_data.control_block == pre_cb);
       gA.ptr = 0;
-      XV_OBL("hp.release.returns_slot", derive_owner(&gA, &gB) && inv_ok(&gA, &gB, 0) && free_count() == in_nfree + 1);
+      XV_OBL("hp.release.returns_slot", derive_owner(&gA, &gB) && inv_ok(&gA, &gB, 0) && owners_unchanged_except(a0.hp) && gh_owner[slot_index(a0.hp) % XV_K] == OW_FREE);
       XV_CANARY("release.held");
     } else {
       XV_OBL("hp.release.returns_slot", gA.hp == 0 && slots_unchanged() && !xv_threw);
@@ -344,9 +368,9 @@ static _Bool returned_to_chain(const struct hp_slot* s) {      /* s was released
 void h_gops(void) {
   build_state(1, 1); in_op = nondet_uint(); in_val = nondet_uptr(); XV_ASSUME(in_op < OP_COUNT && CANON(in_val));
   _Bool fresh_a = in_op <= OP_MOVE_CTOR;                       /* constructors: A is raw storage */
-  if (fresh_a) { XV_ASSUME(in_a_pos == XV_K); gA.ptr = nondet_uptr(); unsigned g = nondet_uint(); gA.hp = g < XV_K ? SLOT(g) : 0; a0.ptr = 0; a0.hp = 0; }
+  if (fresh_a) { XV_ASSUME(in_a_idx == XV_K); gA.ptr = nondet_uptr(); unsigned g = nondet_uint(); gA.hp = g < XV_K ? SLOT(g) : 0; a0.ptr = 0; a0.hp = 0; }
   _Bool pre_gi2 = gi2_ok(&a0) && gi2_ok(&b0);
-  _Bool avail = in_uninit || in_nfree > 0;
+  _Bool avail = in_uninit || pre_hint != 0;
   _Bool needs_slot = 0; struct guard* ret = &gA; uintptr_t d = nondet_uptr();
   struct hp_slot* head = in_uninit ? SLOT(0) : pre_hint;       /* the slot the next allocation must deliver */
   switch (in_op) {
@@ -451,7 +475,7 @@ void h_acq(void) {
   build_state(1, 1); in_op = nondet_uint(); in_expected = nondet_uptr(); in_src = nondet_uptr(); in_order = nondet_int();
   XV_ASSUME(in_op < 2 && CANON(in_expected) && CANON(in_src) && in_order >= mo_relaxed && in_order <= mo_seq_cst);
   mptr src = in_src; acq_src = &src; mon_src = &src;
-  _Bool pre_gi2 = gi2_ok(&a0) && gi2_ok(&b0), avail = in_uninit || in_nfree > 0, r = 0;
+  _Bool pre_gi2 = gi2_ok(&a0) && gi2_ok(&b0), avail = in_uninit || pre_hint != 0, r = 0;
   env_on = 1;
   if (in_op == 0) g_acquire(&gA, &src, in_order); else r = g_acquire_if_equal(&gA, &src, in_expected, in_order);
   env_on = 0;
